@@ -17,6 +17,7 @@ LEVEL_TEXT = ("Coq theorems, for all rational inputs, that the kernels regenerat
 LEVEL_NOTE = ("trusted: translator + Xval semantics (validated by correspondence), extraction, harness; sqrt and correlation are evaluated by "
               "the host on the model's exact rational arguments; binary64 rounding is not modelled (tolerance 1e-9)")
 TECHNIQUE = "Coq proof over translator-regenerated kernels + extracted-model correspondence check"
+TIE_IS_SPEC = True
 SITES = ["S1", "S2", "S2g"]
 RULE = ("structured random cases: 1-3 named dims of size 1-3, obs/weights on random subsets of the forecast dims, coordinates "
         "stored in shuffled order, values on the dyadic grid k/4 (|k|<=32) so fcst==obs ties are frequent, NaN injected with p=0.15, "
@@ -67,6 +68,34 @@ def kernel_grids(ctx):
                     if not core.close_list(impl, gen):
                         ctx.tie_fail("gen_qis vs implementation", {"lower": lo, "upper": hi, "obs": y, "levels": [ll, ul]}, impl, gen)
     ctx.count("interval_grid_points", n)
+    # a missing input makes every component missing (the proved specification has no value there)
+    nanf = float("nan")
+    for lo, hi, y in [(nanf, 1.0, 0.5), (0.0, nanf, 0.5), (0.0, 1.0, nanf), (0.0, nanf, nanf)]:
+        da = lambda v: xr.DataArray([v], dims="x")  # noqa: E731
+        for agg in ({"preserve_dims": "all"}, {}):
+            r = S.continuous.quantile_interval_score(da(lo), da(hi), da(y), 0.1, 0.9, **agg)
+            impl = [float(r[v].values.ravel()[0]) for v in scorelib.QIS_VARS]
+            ctx.case(("kqis-nan", str(lo), str(hi), str(y), bool(agg)))
+            if not all(np.isnan(impl)):
+                ctx.violation("quantile_interval_score scores a case with a missing input", {"lower": lo, "upper": hi, "obs": y, "kw": agg}, "NaN in every component", impl)
+    # angular difference: distance from a - b to the nearest multiple of 360 (proved: C05_angular_is_nearest_turn + range)
+    angs = [Fraction(45 * k, 2) for k in range(-36, 37, 3)]
+    m = 0
+    for a in angs:
+        for b in angs[::2]:
+            d = a - b
+            spec = min(abs(d - 360 * k) for k in range(-6, 7))
+            impl = float(S.functions.angular_difference(xr.DataArray([float(a)], dims="x"), xr.DataArray([float(b)], dims="x")).values[0])
+            gen = core.dec_num(ctx.model("k_angular_difference", enc_list([enc_num(a), enc_num(b)])))
+            via_mae = float(S.continuous.mae(xr.DataArray([float(a)], dims="x"), xr.DataArray([float(b)], dims="x"), is_angular=True))
+            ctx.case(("kang", a, b))
+            m += 1
+            if not core.close(impl, spec) or not core.close(via_mae, spec):
+                ctx.violation("angular difference is not the distance to the nearest full turn (range [0,180], 360-periodic)",
+                              {"a": a, "b": b}, spec, [impl, via_mae])
+            if not core.close(impl, gen):
+                ctx.tie_fail("gen_angular_difference vs implementation", {"a": a, "b": b}, impl, gen)
+    ctx.count("angular_grid_points", m)
 
 
 def run(ctx):
